@@ -587,6 +587,10 @@ pub fn run(ctx: &Ctx) -> Report {
     if let Some(path) = &ctx.replay {
         let v: Value = serde_json::from_slice(&std::fs::read(path).expect("replay")).expect("json");
         let r = &v["replay"];
+        if r["family"] == "node-fallback" {
+            crate::nodex::c03_node_level(ctx, &mut rep);
+            return rep;
+        }
         if r["variant"] == "rogue-listener" {
             let strs = |v: &Value| v.as_array().map(|a| a.iter().filter_map(|x| x.as_str().map(String::from)).collect::<Vec<_>>()).unwrap_or_default();
             run_rogue_listener(
@@ -674,6 +678,8 @@ pub fn run(ctx: &Ctx) -> Report {
             }
         }
     }
+    // node level: proposal order and fallback mapping on real substreams
+    crate::nodex::c03_node_level(ctx, &mut rep);
     rep.extra.insert("exhaustive_subspaces".into(), json!(["message variant: main x fallback subsets x listener subsets over 4 names x 4 groupings"]));
     rep.floor("expected_success", 50);
     rep.floor("expected_failure", 20);
